@@ -957,7 +957,7 @@ func (r *Run) Finish() {
 			fmt.Printf("(+%d further violation groups not listed)\n", len(order)-n)
 			break
 		}
-		name := fmt.Sprintf("%s-%s-%d-s%d.json", r.Prop, sanitize(g.v.Engine+"-"+g.v.Sig), g.v.Index, r.Seed)
+		name := fmt.Sprintf("%s-%s-%08x-%d-s%d.json", r.Prop, sanitize(g.v.Engine+"-"+g.v.Sig), uint32(HashString(g.v.Engine+"|"+g.v.Sig)), g.v.Index, r.Seed)
 		path := filepath.Join(replayDir, name)
 		rs := replaySpec{Property: r.Prop, Engine: g.v.Engine, Index: g.v.Index, Seed: r.Seed, Tier: r.Tier,
 			Sig: g.v.Sig, Msg: g.v.Msg, Log: g.v.Log, Witness: g.v.Witness}
@@ -1020,8 +1020,8 @@ func sanitize(s string) string {
 		}
 	}
 	out := b.String()
-	if len(out) > 80 {
-		out = out[:80]
+	if len(out) > 60 {
+		out = out[:60]
 	}
 	return out
 }
